@@ -107,6 +107,34 @@ def cheap_volume_cases(draw):
     return case
 
 
+@st.composite
+def large_input_cases(draw):
+    """The four cheap heuristics far beyond the sizes of the other legs: 40-300 items, 2-40 bins."""
+    alg = draw(st.sampled_from(["multifit", "greedy", "kk", "roundrobin"]))
+    n = draw(st.sampled_from([40, 64, 65, 100, 128, 129, 200, 256, 257, 300])) + draw(st.integers(0, 3))
+    k = draw(st.sampled_from([2, 3, 7, 8, 9, 16, 17, 32, 33, 40]))
+    style = draw(st.sampled_from(["uniform-9", "uniform-1000", "uniform-1000000", "few-values", "near-equal"]))
+    seed = draw(st.integers(0, 2 ** 40))
+    if style == "few-values":
+        pool = S.splitmix(seed + 1, 3, 0, 30)
+        values = [pool[i] for i in S.splitmix(seed, n, 0, 2)]
+    elif style == "near-equal":
+        values = [10 ** 6 + d for d in S.splitmix(seed, n, 0, 40)]
+    else:
+        values = S.splitmix(seed, n, 0 if seed % 4 == 0 else 1, int(style.split("-")[1]))
+    case = {"alg": alg, "values": values, "numbins": k, "nseed": draw(st.integers(0, 5)), "profile": "large-" + style,
+            "pres": draw(st.sampled_from(["list", "list", "array", "dict-str", "dict-int", "names", "names-array"]))}
+    if alg == "multifit" and draw(st.booleans()):
+        case["opts"] = {"iterations": draw(st.sampled_from([1, 3, 10, 20]))}
+    return case
+
+
+def valid_large(case):
+    v, k = case.get("values"), case.get("numbins")
+    return (case.get("alg") in ("multifit", "greedy", "kk", "roundrobin") and isinstance(v, list) and 1 <= len(v) <= 400
+            and all(isinstance(x, int) and x >= 0 for x in v) and isinstance(k, int) and 1 <= k <= 64 and sum(v) < 2 ** 53)
+
+
 def legs(tier):
     rule = ("hypothesis: (algorithm, profile-mixed non-negative ints, numbins 1..6, one of 5 presentations, options); "
             "non-trivial = >=2 items, >=2 bins and at least one of zero-valued item / repeated value / numbins > "
@@ -120,6 +148,10 @@ def legs(tier):
             "hypothesis: multifit (iterations 1..12) / greedy / kk / roundrobin on 5-16 evenly spread items (uniform, or one or two big + a few "
             "middle + several small), 2-6 bins: the cheap algorithms get tens of thousands of cases; same non-triviality rule",
             strategy=cheap_volume_cases(), n_quick=24000, n_thorough=400000, valid=cases.valid_partition_case, floor=0.1),
+        Leg("large-inputs", evaluate,
+            "hypothesis: multifit / greedy / kk / roundrobin on 40-303 items (sizes around powers of two included) and 2-40 bins, seven "
+            "presentations, values up to 9 / 10^3 / 10^6, three repeated values, near-equal large values; same predicates and rule",
+            strategy=large_input_cases(), n_quick=1600, n_thorough=30000, valid=valid_large, floor=0.1),
         Leg("exhaustive-small", evaluate,
             "every multiset of <=5 values from 0..3 x numbins 1..6 x every algorithm (quick: 1/12 slice; ILP a third "
             "per thorough run); same non-triviality rule",
